@@ -156,8 +156,10 @@ class Rival:
         self.clk.guest = True
         try:
             fn()
-        except (EmptySchedule, RuntimeError):
-            pass                     # nothing left to do / its own "too slow": not the business of the environment under test
+        except (EmptySchedule, RuntimeError, ClockBudget):
+            self.env = None if self.clk.guest_calls > CLOCK_BUDGET else self.env
+                                     # nothing left to do / its own "too slow" (/ its own sleep loop does not end): not the business
+                                     # of the environment under test
         finally:
             self.clk.guest = False
 
